@@ -15,7 +15,7 @@ COMMON_TRUSTED = [
     'Go toolchain, crypto/*, math/big, encoding/base64, strconv, fmt are modelled, not verified',
 ]
 
-HOOK_COMMITS = ['145a800', '0e007dd', '6fbda5a', '22cc77e', '98d302b', '55b74c7']
+HOOK_COMMITS = ['145a800', '0e007dd', '6fbda5a', '22cc77e', '98d302b', '55b74c7', 'fbf3b44']
 NOT_APPLICABLE = {}
 
 PROPS = {
@@ -159,5 +159,12 @@ PROPS = {
         'trusted': ["harness/scan.go: reflect/unsafe walk of the object graph (does not follow the harness's own handler objects, time/sync internals, func values)", 'call-site classification of random reads by runtime.Callers'],
         'assumptions': ['identifiers of fresh exponents are distinct (random 320-bit values)'],
         'targets': ['Corr/Dispatch.vo', 'Proto/Run.vo'],
+    },
+    'C10': {
+        'level_text': "The specification model (Spec/Otr.v over executable SHA-1, SHA-256, HMAC and AES-128-CTR written in Gallina; known answers from FIPS 180-4 / FIPS 197 / SP 800-38A / RFC 2202 / RFC 4231 checked by the kernel) is evaluated every run on the secrets of real sessions and must reproduce, byte for byte, what the implementation emitted: D-H Commit, D-H Key, Reveal Signature, Signature, data messages (header, key ids, next key, counter, ciphertext, authenticator, disclosed keys), AKE keys, SSID, session keys, extra symmetric key. Theorems for all inputs: the two ends derive mirrored keys (high/low rule); AES-CTR undoes itself; a data message built per the specification is authenticated and read back by the peer (spec accepts spec); the specification's MPI / data-body layouts equal the mirrors of the Go serialisers proved correct under C17. An independent Go reference (math/big, crypto/*) re-derives every key, MAC, ciphertext, signature validity and key id of every message, and searches deliberately for key pairs whose shared secret has leading zero bytes.",
+        'level_note': 'partial: DSA signing is randomised and not re-derived (signature validity is checked with crypto/dsa over the M_B / M_A the specification prescribes); the specification was transcribed from the published protocol description by the author of the model (no network, no libotr here); modular exponentiation is done by math/big in the harness and handed to the model as a number.',
+        'trusted': ['the transcription of the OTR v2/v3 specification in coq/Spec/Otr.v', "Go's crypto/sha1, crypto/sha256, crypto/hmac, crypto/aes, crypto/dsa and math/big as the reference the Gallina primitives and the key derivation are compared with", "hooks VerifAKEKeys / VerifSessionKeys / VerifKeys expose the implementation's key derivation and DH values"],
+        'assumptions': ['g^x mod p as computed by math/big'],
+        'targets': ['Corr/Dispatch.vo'],
     },
 }
